@@ -3,6 +3,7 @@ import Driver.Dominance
 import Driver.Archive
 import Driver.Catchment
 import Driver.Suppa
+import Driver.Csv
 import Driver.Params
 import Driver.BoolArchive
 import Driver.Kirkpatrick
@@ -17,6 +18,7 @@ def main (args : List String) : IO UInt32 := do
   | ["boolarchive-ops"] => Driver.run ([] : Driver.BoolArchive.St) Driver.BoolArchive.step; return 0
   | ["portability"] => Driver.runPure Driver.BoolArchive.stepPort; return 0
   | ["params"] => Driver.run ({} : Driver.Params.St) Driver.Params.step; return 0
+  | ["csv"] => Driver.runPure Driver.Csv.step; return 0
   | ["suppa"] => Driver.run ({} : Driver.Suppa.St) Driver.Suppa.step; return 0
   | ["catchment"] => Driver.run ({} : Driver.Catchment.St) Driver.Catchment.step; return 0
   | _ =>
